@@ -40,6 +40,8 @@ OPERANDS = [
     ("sempty", '""', ""), ("sa", '"a"', "a"), ("sab", '"ab"', "ab"), ("s1", '"1"', "1"),
     ("l0", "[]", NOSTORE), ("l1", "[1]", NOSTORE), ("l1a", '[1, "a"]', NOSTORE),
     ("m0", "{}", NOSTORE), ("ma", '{"a": 1}', NOSTORE),
+    # containers holding containers (membership and equality compare element-wise, whatever the elements are)
+    ("ll1", "[[1]]", NOSTORE), ("lma", '[{"a": 1}, [1]]', NOSTORE), ("mma", '{"a": {"a": 1}}', NOSTORE),
 ]
 QUICK_OPERANDS = {"nil", "true", "false", "i0", "i1", "im1", "i7", "i2p53p1", "i2p53", "imax", "imin", "f0", "fhalf", "fm1h",
                   "f2p53", "fbig", "fnan", "sempty", "sa", "s1", "l1", "ma"}
@@ -101,6 +103,14 @@ def gen_ops(quick, seed):
             if True:
                 out.append(ps("op:%s%s%s" % (an, op, bn), "x = %s\ny = %s\nx %s y\nprobe(x)" % (al, bl, op),
                               tag="compound assignment"))
+    if quick:
+        # containers holding containers: membership / equality / concatenation-like operators against every container class
+        nested = [o for o in OPERANDS if o[0] in ("ll1", "lma", "mma")]
+        cont = [o for o in OPERANDS if o[0] in ("l0", "l1", "l1a", "m0", "ma", "ll1", "lma", "mma", "nil", "i1", "sa")]
+        for (an, al, av), (bn, bl, bv) in list(itertools.product(nested, cont)) + list(itertools.product(cont, nested)):
+            for op in ["in", "==", "!=", "+", "<", "&&"]:
+                out.append(ps("op:%s%s%s:nst" % (an, op, bn), "probe(%s %s %s)" % (al, op, bl), tag="operator table, nested containers"))
+                out.append(ps("op:%s%s%s:nstv" % (an, op, bn), "a = %s\nb = %s\nprobe(a %s b)" % (al, bl, op), tag="operator table, nested containers"))
     for (an, al, av) in ops:
         for u in ["-", "+", "!"]:
             out.append(ps("un:%s%s" % (u, an), "x = %s\nprobe(%sx)" % (al, u), tag="unary operator"))
@@ -122,7 +132,12 @@ def gen_ops(quick, seed):
             trees.append("%s %s %s %s %s %s %s" % (ls[0], o2, ls[1], o1, ls[2], o3, ls[3]))
     for i, t in enumerate(trees):
         out.append(ps("tree:%d" % i, "probe(%s)" % t, tag="expression tree"))
-    return out
+    seen, uniq = set(), []
+    for p in out:
+        if p["id"] not in seen:
+            seen.add(p["id"])
+            uniq.append(p)
+    return uniq
 
 
 # ------------------------------------------------------------------------------------------------
@@ -321,6 +336,13 @@ def gen_control(quick, seed):
     for c1, c2 in itertools.product(conds, conds):
         n += 1
         out.append(ps("if:%d" % n, "if %s { probe(1) } elif %s { probe(2) } else { probe(3) }\nprobe(4)" % (c1, c2), tag="if/elif/else"))
+    # empty blocks: a taken branch without statements is still the taken branch
+    for c1, c2 in itertools.product(["0", "1", '""', '"x"', "[]", "nil"], repeat=2):
+        n += 1
+        out.append(ps("ife:%d" % n, "if %s { } elif %s { } else { probe(3) }\nprobe(4)\nif %s { probe(1) } elif %s { } else { probe(5) }\n"
+                      "if %s { } else { probe(6) }\nif %s { } elif %s { probe(7) }\nprobe(8)" % (c1, c2, c1, c2, c2, c1, c2), tag="if/elif/else with empty blocks"))
+    out.append(ps("ife:loop", "n = 0\nfor v in [1, 2, 3, 4] {\nif v == 2 { } elif v == 3 { } else { n = n + 1 }\n}\nprobe(n)\n"
+                  "for i = 0; i < 3; i = i + 1 { if i == 1 { } else { probe(i) } }", tag="if/elif/else with empty blocks"))
     for c in conds:
         out.append(ps("if1:%s" % c, "c = %s\nif c { probe(1) }\nif c { probe(2) } else { probe(3) }\nif fs { probe(5) }\nif nosuch { probe(6) }" % c,
                       pt=STD_PT, tag="if with condition from a variable / point"))
@@ -522,7 +544,8 @@ def gen_cancel(quick, seed):
 
 
 HOSTILE_VALUES = ["nil", "true", "7", "-1", "9223372036854775807", "(" + INT_MIN_EXPR + ")", "1.5", "inf", "nan", '"s"', '""', "[1, 2]", "[]",
-                  '{"a": 1}', "{}", "a.b", "probe()", "fi", "tg", "nosuch"]
+                  '{"a": 1}', "{}", "a.b", "probe()", "fi", "tg", "nosuch",
+                  '[[1], {"a": 1}]', '{"m": [1]}']
 
 
 def gen_hostile(quick, seed):
@@ -550,7 +573,7 @@ def gen_hostile(quick, seed):
         add("for v in %s { probe(v) }" % a if a not in ("nil", "true", "7", "-1", "1.5", "inf", "nan", "9223372036854775807") else "w = %s\nfor v in w { probe(v) }" % a,
             "hostile iterable")
         add("x = [%s, 1]\ny = {\"k\": %s}" % (a, a), "hostile element")
-        add("y = {%s: 1}" % a if a not in ("nil", "true", "7", "-1", "1.5", "inf", "nan", "9223372036854775807", "[1, 2]", "[]", '{"a": 1}', "{}")
+        add("y = {%s: 1}" % a if a not in ("nil", "true", "7", "-1", "1.5", "inf", "nan", "9223372036854775807", "[1, 2]", "[]", '{"a": 1}', "{}", '[[1], {"a": 1}]', '{"m": [1]}')
             else "k = %s\ny = {k: 1}" % a, "hostile map key")
         add("z = [1, 2, 3]\nx = z[%s]" % a, "hostile index")
         add("z = [1, 2, 3]\nz[%s] = 1" % a, "hostile index write")
@@ -561,7 +584,7 @@ def gen_hostile(quick, seed):
         add("x = 1\nx += %s" % a, "compound assign with anything")
         add("add_key(hk, %s)%s" % (a, "" if a[0] in "[{" else "\nprobe(hk)"), "add_key of anything")
         add("x = len(%s)" % a, "len of anything")
-        bnd = a if a not in ("1.5", "inf", "nan", '"s"', '""', "[1, 2]", "[]") else None
+        bnd = a if a not in ("1.5", "inf", "nan", '"s"', '""', "[1, 2]", "[]", '[[1], {"a": 1}]') else None
         if bnd:
             add("z = [1, 2, 3]\nx = z[%s:]\ny = z[:%s]\nw = z[::%s]" % (bnd, bnd, bnd) if bnd not in ("0",) else "z = [1]", "hostile slice bounds")
         add("w = %s\nz = [1, 2, 3]\nx = z[w:]" % a, "hostile slice start from a variable")
@@ -645,6 +668,7 @@ CHECK_TEMPLATES = [
     "for v in @ { }", "for v in [1] { y = @ }", "for v in [1] { if v { y = @ } }",
     "x = [@]", "x = [1, @]", "x = [[@]]", 'x = {"k": @}', 'x = {"a": 1, "b": @}', "x = {@: 1}",
     "z[@] = 1", "x = z[@]", "x = z[0][@]", "z[0][@] = 2",
+    "x = .[@]", ".[@]", "x = .[0][@]", "if .[@] == 1 { }", "x = .[@].b", "x = z.b[@]", "x = z.b.c[0][@]", "for ; .[@]; { break }",
     "x = z[@:]", "x = z[:@]", "x = z[::@]", "x = z[1:@]", "x = z[1::@]", "x = z[:1:@]", "x = z[1:2:@]", "x = z[@:1:1]", "x = z[@::1]",
     'x = "abc"[@:]', "x = [1, 2][::@]", "x = z[1:][@:]", "x = len(z)[::@]",
     "len(@)", "add_key(k, @)", "probe(1, @)", "probe(@, 1)", "len(len(@))", "pv(@)", "probe(a = @)", "add_key(k, [1, {\"q\": @}])",
